@@ -7,8 +7,8 @@ import (
 	"os"
 	"sort"
 	"strconv"
-	"sync"
 	"strings"
+	"sync"
 
 	"verif/mc"
 
@@ -31,7 +31,7 @@ type config struct {
 	woffs, wlens       []int
 	truncs             []int
 	faultOps           []string
-	ballast            bool // pre-allocate most of the device so that the next allocations cross a bitmap word
+	ballast            bool  // pre-allocate most of the device so that the next allocations cross a bitmap word
 	preopen            []int // sizes of the files that exist in the initial state (one per slot), saves depth
 	depth              map[string]int
 }
@@ -1022,8 +1022,8 @@ func makeSeq(cfg *config) *mc.Seq {
 		})
 	}
 	return &mc.Seq{
-		Name:   cfg.name,
-		Props:  []string{prop},
+		Name:  cfg.name,
+		Props: []string{prop},
 		New: func(c *mc.SeqCtx) any {
 			s := newSys(cfg)
 			for slot, size := range cfg.preopen {
